@@ -135,8 +135,8 @@ def vec_sexp(d):
     return [[k, F(e)] for k, e in sorted(d.items())]
 
 
-def env_sexp():
-    return [[vec_sexp(a[2]) for a in ATOMS], [vec_sexp(n) for n in UTAB],
+def env_sexp(extra_units=()):
+    return [[vec_sexp(a[2]) for a in ATOMS], [vec_sexp(n) for n in UTAB] + [vec_sexp(n) for n in extra_units],
             [[var_unit(v), [] if not var_init(v) else [var_init(v)]] for v in range(NV)]]
 
 
@@ -178,7 +178,23 @@ class World(object):
         return self.model.create_quantity(v, self.units[uidx])
 
     def build(self, tree, evaluate=False):
-        return bridge.reflect(tree, self.vars, self.quantity, evaluate=evaluate)
+        made = {}        # one Quantity object per identity: a sub-expression that occurs twice is the SAME expression
+
+        def quantity(qid, value, uidx):
+            key = (qid, value, uidx)
+            if key not in made:
+                made[key] = self.quantity(qid, value, uidx)
+            return made[key]
+        return bridge.reflect(tree, self.vars, quantity, evaluate=evaluate)
+
+    def nunit_of(self, unit):
+        """a pint Unit of this world as a formal product of atoms"""
+        import re
+        n = {}
+        for name, e in unit._units.items():
+            j = ATOM_ID[re.sub(r'^store[0-9]+_', '', name)]
+            n[j] = n.get(j, 0) + F(e).limit_denominator(1024)
+        return {j: e for j, e in n.items() if e != 0}
 
     def reifier(self):
         def vi(x):
@@ -683,6 +699,43 @@ class Gen(object):
             return self.piecewise(n, d, a), n
         y, t = rng.randrange(NV), 3 * rng.choice([4, 5, 11]) + rng.choice([0, 1, 2])
         return [8, [3, y], [3, t], 1], nmul(UTAB[var_unit(y)], UTAB[var_unit(t)], -1)
+
+
+def shared_tree(g, d=3):
+    """(tree, natural unit): one compound subterm S occurs 2-3 times in different unit contexts -- as a factor (any units
+    will do), inside exp() after division by a unit-carrying quantity, as a side of a relation or an operand of a sum next
+    to a differently scaled partner (specific units required) -- in both orders of first visit"""
+    rng = g.rng
+    while True:
+        u = rng.randrange(1, NU)
+        alts = [w for w in range(NU) if UDIMS[w] == UDIMS[u]]
+        if UDIMS[u] and len(alts) > 1:
+            break
+    n = dict(UTAB[u])
+    S = [4, g.leaf(rng.choice([u, u, rng.choice(alts)])), g.leaf(u)]
+    if rng.random() < 0.3:
+        S = [4, [5, rng.choice(NUMS), S[1]], S[2]]
+    partner = lambda: g.leaf(rng.choice([w for w in alts if w != u] or alts))      # noqa: E731
+    k = g.qty(0, rng.choice([F(2), F(3), F(1, 2)]))
+    factor = [5, k, S]
+    inexp = [7, rng.choice([0, 1, 10, 18]), [5, S, [6, g.qty(rng.choice(alts), F(2)), [0, 0, F(-1)]]]]
+    rel = [9, rng.choice([2, 3, 4, 5]), partner(), S] if rng.random() < 0.5 else [9, rng.choice([2, 3, 4, 5]), S, partner()]
+    summ = [4, partner(), S] if rng.random() < 0.6 else [4, S, partner()]
+    zero = g.qty(u, F(0))
+    r = rng.random()
+    if r < 0.3:
+        t, nat = [13, [factor, rel], [zero, [11]]], n                       # factor first, then relation side
+    elif r < 0.45:
+        t, nat = [13, [summ, rel], [factor, [11]]], n                       # sum first
+    elif r < 0.65:
+        t, nat = [5, inexp, summ], n                                        # exp argument first, then sum operand
+    elif r < 0.8:
+        t, nat = [5, summ, inexp], n                                        # the other order
+    elif r < 0.9:
+        t, nat = [4, factor, partner(), S], n                               # factor, then operand of the same sum
+    else:
+        t, nat = [13, [[5, inexp, S], rel], [summ, [11]]], n                # three occurrences
+    return t, nat
 
 
 def exp_value(x):
